@@ -25,7 +25,7 @@ m = {
     'setup_cmd': './bin/setup',
     'hooks': {
         'guard': 'kani',
-        'enable': 'no source commits: cargo-kani defines cfg(kani); each check appends `#[cfg(kani)] #[path=..] mod verif_kani;` to a scratch copy of /repo under /var/tmp and deletes it afterwards. Verus units are extracted mechanically from /repo on every run.',
+        'enable': 'no source commits: cargo-kani defines cfg(kani); each check appends `#[cfg(kani)] #[path=..] mod verif_kani;` to a scratch copy of /repo under /dev/shm or /var/tmp and deletes it afterwards. Verus units are extracted mechanically from /repo on every run.',
         'baseline_off_cmd': 'cd /repo && cargo nextest run --workspace --no-fail-fast --offline',
         'source_commits': [],
         'add_only': True,
